@@ -162,6 +162,10 @@ def find_c07(quick, seed):
             jobs.append('P=%d seed=%d min=400 max=700 mut=offbyone,memoindex,stringlen rate=0.5' % (P, sd))
         for h in ('', '00', 'ff01fe02', '0102030405060708090a0b0c0d0e0f10111213'):
             jobs.append('P=%d hex=%s min=300 max=500' % (P, h))
+        # long pickles: more than 256 memo entries (hash-order effects only show up beyond small maps)
+        for sd in range(3 if quick else 12):
+            jobs.append('P=%d seed=%d min=4500 max=4500' % (P, sd))
+            jobs.append('P=%d seed=%d min=4500 max=4500 mut=offbyone,memoindex rate=0.5' % (P, sd))
     a = run_jobs(jobs)
     b = run_jobs(jobs)
     for (j, x), (_, y) in zip(a, b):
